@@ -200,9 +200,12 @@ def repo_root():
     return os.path.dirname(os.path.dirname(os.path.abspath(basic_robotics.__file__)))
 
 
-def build_arm(target, base6):
+def build_arm(target, base6, spec=None):
     if target == "arm:sixr":
         return build_sixr(base6)
+    if target == "arm:rand":
+        from vf import arms as A
+        return A.build_arm(spec)[0]
     from basic_robotics.kinematics import loadArmFromURDF
     from basic_robotics.general import tm
     name = target.split(":")[2]
@@ -252,7 +255,7 @@ def exec_entry(case):
 
     def run():
         if tgt.startswith("arm"):
-            arm = build_arm(tgt, case["base"])
+            arm = build_arm(tgt, case["base"], case.get("spec"))
             n = arm.num_dof
             t = th[:n].copy()
             if op == "FK":
@@ -562,7 +565,7 @@ def check_kernel(case, ctx):
 
 def check_entry(case, ctx):
     ctx.label("%s.%s" % (case["target"], case["op"]))
-    ctx.nontrivial(case.get("i", 0) >= 1 or any(v != 0 for v in case.get("base", [0])))
+    ctx.nontrivial(case.get("i", 0) != 0 or any(v != 0 for v in case.get("base", [0])))
     rb = ask(True, case)["compiled"]
     r0 = ask(False, case)["compiled"]
     what = "%s.%s" % (case["target"], case["op"])
@@ -607,17 +610,21 @@ def chain_theta(draw, nmin=1, nmax=7):
 
 @st.composite
 def ik_problem(draw, body):
-    """Well-conditioned, converging IK problem: generic 6R chain, start 0.02 from a solution."""
-    S = np.stack([draw(G.screw_axis(False)) for _ in range(6)], axis=1)
+    """Converging IK problem: chain of 2..7 revolute joints (NOT only 6: kernels index their limit and
+    joint tables by the chain length), goal = oracle FK of theta*, start within 0.01 of theta*."""
+    n = draw(st.sampled_from([2, 3, 4, 5, 6, 6, 7]))
+    S = np.stack([draw(G.screw_axis(False)) for _ in range(n)], axis=1)
     M = draw(se3())
-    ths = draw(G.vec(6, -1.5, 1.5))
+    ths = draw(G.vec(n, -1.5, 1.5))
     J = O.jac_space(S, ths)
-    if np.linalg.svd(J, compute_uv=False)[-1] < 0.05:
-        S = np.array([[0, 0, 1, 0, 0, 0], [0, 1, 0, -0.4, 0, 0], [0, 1, 0, -0.4, 0, 0.5],
-                      [1, 0, 0, 0, 0.4, 0], [0, 1, 0, -0.4, 0, 1.0], [1, 0, 0, 0, 0.45, 0]], dtype=float).T
-        ths = np.array([0.3, -0.5, 0.8, 0.4, -0.6, 0.2])
+    if np.linalg.svd(J, compute_uv=False)[min(n, 6) - 1] < 0.05:
+        S6 = np.array([[0, 0, 1, 0, 0, 0], [0, 1, 0, -0.4, 0, 0], [0, 1, 0, -0.4, 0, 0.5],
+                       [1, 0, 0, 0, 0.4, 0], [0, 1, 0, -0.4, 0, 1.0], [1, 0, 0, 0, 0.45, 0],
+                       [0, 0, 1, 0.3, -0.2, 0]], dtype=float).T
+        S = np.ascontiguousarray(S6[:, :n])
+        ths = np.array([0.3, -0.5, 0.8, 0.4, -0.6, 0.2, 0.5])[:n]
     T = O.poe_space(M, S, ths)
-    th0 = ths + draw(G.vec(6, -0.01, 0.01))
+    th0 = ths + draw(G.vec(n, -0.01, 0.01))
     if body:
         B = O.Ad(O.inv(M)) @ S
         return [np.ascontiguousarray(B), M, np.ascontiguousarray(T), th0, 1e-6, 1e-6]
@@ -701,7 +708,8 @@ def kernel_args(draw, name):
         return draw(ik_problem(False)) + [20]
     if name == "IKinSpaceConstrained":
         a = draw(ik_problem(False))
-        return [a[0], a[1], a[2], a[3], 1e-6, 1e-6, -np.ones(6) * PI, np.ones(6) * PI, 30]
+        n = a[0].shape[1]
+        return [a[0], a[1], a[2], a[3], 1e-6, 1e-6, -np.ones(n) * PI, np.ones(n) * PI, 30]
     if name == "EulerStep":
         n = draw(st.integers(1, 7))
         return [draw(G.vec(n, -3, 3)), draw(G.vec(n, -3, 3)), draw(G.vec(n, -3, 3)), draw(f(1e-3, 0.5))]
@@ -801,12 +809,19 @@ TM_OPS = ["matmul", "inv", "adjoint", "exp6", "localToGlobal", "globalToLocal", 
 @st.composite
 def entry_cases(draw):
     tgt = draw(st.sampled_from(["arm:sixr", "arm:sixr", "arm:urdf:ur5", "arm:urdf:irb_2400", "arm:urdf:puma_560",
-                                "arm:urdf:ur10", "sp", "sp", "tm"]))
+                                "arm:urdf:ur10", "arm:rand", "arm:rand", "sp", "sp", "tm"]))
     base = draw(st.one_of(st.just(np.zeros(6)), G.taas(maxnorm=3.0, maxang=2.0)))
+    # index arguments: every value 0..7 (taken modulo the arm's size) with extra mass on the LAST index (-1)
     case = {"kind": "entry", "target": tgt, "base": base, "seed": draw(st.integers(0, 2 ** 31 - 1)),
-            "i": draw(st.integers(0, 7))}
+            "i": draw(st.sampled_from([0, 1, 2, 3, 4, 5, 6, 7, -1, -1, -1]))}
+    if tgt == "arm:rand":
+        from vf import arms as A
+        case["spec"] = draw(A.random_chain_specs(1, 7))
+        case["spec"]["base"] = base
     if tgt.startswith("arm"):
         ops = ARM_OPS + (ARM_DYN_OPS if tgt == "arm:sixr" else [])
+        if tgt == "arm:rand":
+            ops = [o for o in ARM_OPS if o not in ("FKLink", "jacobianLink", "staticForcesWithLinkMasses")]
         case["op"] = draw(st.sampled_from(ops))
         case["theta"] = draw(G.vec(8, -1.2, 1.2))
         case["wrench"] = draw(G.vec6(10))
@@ -830,7 +845,7 @@ def entry_cases(draw):
 
 CLAUSES = [
     Clause("kernels_bounds_and_interpreted", check_kernel, kernel_cases(), 1400, 28000),
-    Clause("entry_points_bounds", check_entry, entry_cases(), 400, 8000),
+    Clause("entry_points_bounds", check_entry, entry_cases(), 1000, 16000),
 ]
 
 
